@@ -41,7 +41,7 @@ def gen(rng, flavour):
            'bdur': rng.choice([0, BT / 4, BT, 4 * BT]), 'idur': rng.choice([0, 0, BT / 8]),
            'order': rng.choice(['fwd', 'rev', 'shuf']),
            'form': rng.choice(['class', 'class', 'deco', 'deco_opts']),
-           'explicit_key': rng.random() < 0.7}
+           'explicit_key': rng.choice([True, True, 'prefixed', False])}
     if flavour == 'c10':
         gaps = [0, 0, BT / 4, BT - BT / 16, BT, BT + BT / 16, 2 * BT + BT / 4, 5 * BT]
         n = rng.randint(1, 12)
@@ -171,10 +171,14 @@ class BatcherHarness:
                     else:
                         bat = A.async_background_batcher(**opts)(fn)
 
+                    def eff_key(c):
+                        # 'prefixed': the explicit key differs from str(arg), so ignoring it shows
+                        return 'K' + c['key'] if cfg['explicit_key'] == 'prefixed' else c['key']
+
                     def invoke(c, cid):
                         a = Arg(c['key'], cid)
                         if cfg['explicit_key']:
-                            return bat(a, key=c['key'])
+                            return bat(a, key=eff_key(c))
                         return bat(a)
 
                     async def call(cid, c):
@@ -182,7 +186,7 @@ class BatcherHarness:
                         if c['t']:
                             await aio.sleep(c['t'])
                         me = aio.current_task()
-                        emit('call', cid, c['key'])
+                        emit('call', cid, eff_key(c))
                         try:
                             if c['how'] == 'timeout':
                                 async with aio.timeout(c['cancel']):
@@ -224,7 +228,7 @@ class BatcherHarness:
                     for j in range(fresh):
                         cid = 1000 + j
                         c = {'key': f'fresh{j}', 'beh': 'val'}
-                        emit('call', cid, c['key'])
+                        emit('call', cid, eff_key(c))
                         try:
                             r = await aio.wait_for(invoke(c, cid), 16.0)
                             emit('ret', cid, 'val', r)
@@ -423,7 +427,7 @@ def judge_c09(v: BatView, res: CaseResult, prog):
         tcan = c['t'] + c['cancel']
         role = 'originator' if cid in v.where else 'sharer'
         phase = 'never-batched'
-        key = c['key']
+        key = v.calls[cid][1][2]          # the effective key as logged
         # find the batch serving this key at cancel time
         for i, b in v.bstarts:
             if any(k == key for k, _ in b[2]):
